@@ -28,6 +28,7 @@ Num(r) ==
                                       ELSE RMul(P(r, "K"), RAdd(ROne, RMul(S(r), P(r, "T1"))))
       [] r.block = "LeadLagLimit"  -> RAdd(ROne, RMul(S(r), P(r, "T1")))
       [] r.block = "Washout"       -> RMul(S(r), P(r, "K"))
+      [] r.block = "WashoutOrLag"  -> IF RLe(P(r, "K"), RZero) THEN ROne ELSE RMul(S(r), P(r, "K"))   \* K <= 0 ("z1"): a lag 1 / (1 + sT)
       [] r.block = "Lag2ndOrd"     -> P(r, "K")
       [] r.block = "LeadLag2ndOrd" -> RAdd(RAdd(ROne, RMul(S(r), P(r, "T3"))), RMul(Sq(S(r)), P(r, "T4")))
       [] r.block = "PIController"  -> RAdd(RMul(P(r, "kp"), S(r)), P(r, "ki"))
@@ -42,17 +43,18 @@ Den(r) ==
       [] r.block \in {"Lag", "LagAntiWindup"} -> RAdd(P(r, "D"), RMul(S(r), P(r, "T")))
       [] r.block = "LeadLag"       -> IF IsZero(P(r, "T1")) /\ IsZero(P(r, "T2")) THEN ROne ELSE RAdd(ROne, RMul(S(r), P(r, "T2")))
       [] r.block = "LeadLagLimit"  -> RAdd(ROne, RMul(S(r), P(r, "T2")))
-      [] r.block = "Washout"       -> RAdd(ROne, RMul(S(r), P(r, "T")))
+      [] r.block \in {"Washout", "WashoutOrLag"} -> RAdd(ROne, RMul(S(r), P(r, "T")))
       [] r.block \in {"Lag2ndOrd", "LeadLag2ndOrd"} -> RAdd(RAdd(ROne, RMul(S(r), P(r, "T1"))), RMul(Sq(S(r)), P(r, "T2")))
       [] r.block \in {"PIController", "PIAWHardLimit"} -> S(r)
       [] OTHER                     -> RMul(S(r), RAdd(ROne, RMul(S(r), P(r, "Td"))))
 
 (* documented steady-state output for a constant input u0 (where the block has one) *)
-HasDC(r) == r.block \in {"Gain", "Lag", "LagAntiWindup", "LeadLag", "LeadLagLimit", "Washout", "Lag2ndOrd", "LeadLag2ndOrd", "GainLimiter"}
+HasDC(r) == r.block \in {"Gain", "Lag", "LagAntiWindup", "LeadLag", "LeadLagLimit", "Washout", "WashoutOrLag", "Lag2ndOrd", "LeadLag2ndOrd", "GainLimiter"}
 DC(r, u0) == CASE r.block \in {"Gain"} -> RMul(P(r, "K"), u0)
                [] r.block \in {"Lag", "LagAntiWindup"} -> RDiv(RMul(P(r, "K"), u0), P(r, "D"))
                [] r.block = "LeadLag" -> RMul(P(r, "K"), u0)
                [] r.block = "Washout" -> RZero
+               [] r.block = "WashoutOrLag" -> IF RLe(P(r, "K"), RZero) THEN u0 ELSE RZero
                [] r.block = "Lag2ndOrd" -> RMul(P(r, "K"), u0)
                [] r.block = "GainLimiter" -> RMul(RMul(P(r, "K"), P(r, "R")), u0)
                [] OTHER -> u0
